@@ -28,6 +28,7 @@ RULE = ('case i draws a batch of 6 seeded programs from the union of all generat
         'run-time lengths back to back, in a callee and in a loop, filled and only then read back) is run at every word '
         'size in {2,3,4,5,6,7,8}; whenever the reference histories at w < w\' agree the SVM histories must agree. '
         '(d) lint: --lint either raises a compiler diagnostic or yields byte-identical assembly. '
+        'The lint clause also covers 10 programs per case from C16\'s exit-shape generator (unreachable statements of every kind). '
         '(e) process environment: one program of the batch with non-ASCII text (a comment is appended when it has none) '
         'is compiled by the command-line tool on the fake file system under the simulated locale encodings utf-8, ascii, '
         'latin-1 and cp1252, and - every fourth case - by the real tool in two fresh interpreters (LC_ALL=C.utf8; LC_ALL=C '
@@ -203,7 +204,7 @@ def layout_prog(rnd):
     return prog([], fs + [callee, func('empty', '@is_you', [('int', 'q')], *body)]), [str(rnd.randrange(1, 5))]
 
 
-def judge_batch(batch, hashseeds, real_env=False):
+def judge_batch(batch, hashseeds, real_env=False, lint_extra=()):
     """batch: list of (prog, argv, W, kind, src).  -> violations, stats"""
     viol = []
     stats = {'subprocess_compiles': 0, 'stack_runs': 0, 'word_runs': 0, 'lint_pairs': 0, 'lint_rejected': 0, 'env_fired': {}}
@@ -240,6 +241,20 @@ def judge_batch(batch, hashseeds, real_env=False):
             stats['lint_rejected'] += 1
         elif lint != plain:
             viol.append(('lint-changes-code', f'--lint accepted the program but the assembly differs ({plain[:16]} vs {lint[:16]})', n))
+    # lint on exit-analysis shapes (C16's generator: unreachable statements of every kind, closing returns behind
+    # endless loops and terminal calls) - where --lint has something to object to, at any word size
+    for k, src in enumerate(lint_extra):
+        W = (2, 3, 4)[k % 3]
+        plain, _ = local_digest({'src': src, 'W': W, 'stack': 500, 'unchecked': False, 'lint': False})
+        lint, _ = local_digest({'src': src, 'W': W, 'stack': 500, 'unchecked': False, 'lint': True})
+        stats['lint_pairs'] += 1
+        if lint.startswith('ERR:'):
+            stats['lint_rejected'] += 1
+        elif plain.startswith('ERR:'):
+            viol.append(('lint-changes-code', f'--lint accepts a program that is rejected without it ({plain[:120]}); exit-shape program {k}', 0))
+        elif lint != plain:
+            viol.append(('lint-changes-code', f'--lint accepted the program but the assembly differs ({plain[:16]} vs {lint[:16]}); '
+                                              f'exit-shape program {k}:\n{src[:1200]}', 0))
     # stack and word size on the first program of the batch
     p, argv, W, kind, src = batch[0]
     v, n_need, runs = check_stack(p, argv, W, src, False)
@@ -268,8 +283,10 @@ def case(seed, idx, tier):
         src = render.program(p, render.Style(rnd.randrange(1 << 30)))
         batch.append((p, argv, W, kind, src))
     hashseeds = [0, rnd.randrange(1, 1 << 31), rnd.randrange(1, 1 << 31), rnd.randrange(1, 1 << 31)]
+    from .c16 import G16
+    lint_extra = [render.program(G16(rnd).build(), render.Style(rnd.randrange(1 << 30))) for _ in range(10)]
     res = common.new_result()
-    viol, stats = judge_batch(batch, hashseeds, real_env=(idx % 4 == 0))
+    viol, stats = judge_batch(batch, hashseeds, real_env=(idx % 4 == 0), lint_extra=lint_extra)
     res['key'] = digest(*[b[4] for b in batch])
     res['nontrivial'] = bool(stats['subprocess_compiles'] and stats['stack_runs'] and stats['word_runs'] and stats['lint_pairs'])
     res['counters'].update({k: v for k, v in stats.items() if isinstance(v, int)})
@@ -283,12 +300,12 @@ def case(seed, idx, tier):
         p, argv, W, kind, src = batch[n]
         res['violations'].append({'cls': cls, 'detail': detail, 'fingerprint': None,
                                   'payload': {'batch': [[lang.to_json(b[0]), b[1], b[2], b[3], b[4]] for b in batch],
-                                              'hashseeds': hashseeds, 'culprit': n, 'real_env': idx % 4 == 0},
+                                              'hashseeds': hashseeds, 'culprit': n, 'real_env': idx % 4 == 0, 'lint_extra': lint_extra},
                                   'sample': {'source': src[:1500], 'argv': argv, 'W': W}})
     return res
 
 
 def replay(pl):
     batch = [(lang.from_json(b[0]), b[1], b[2], b[3], b[4]) for b in pl['batch']]
-    viol, _ = judge_batch(batch, pl['hashseeds'], real_env=pl.get('real_env', False))
+    viol, _ = judge_batch(batch, pl['hashseeds'], real_env=pl.get('real_env', False), lint_extra=pl.get('lint_extra', ()))
     return [{'cls': c, 'detail': d, 'fingerprint': None} for c, d, _ in viol]
